@@ -13,7 +13,9 @@ import (
 	"fmt"
 	"io"
 	"os"
+	"runtime"
 	"runtime/debug"
+	"time"
 
 	"github.com/parsyl/parquet"
 	sch "github.com/parsyl/parquet/schema"
@@ -39,6 +41,7 @@ type op struct {
 	Vectors []vector `json:"vectors"`
 	RunLens []int    `json:"runlens"`
 	NRuns   int      `json:"nruns"`
+	Big     bool     `json:"big"`
 }
 
 type vector struct {
@@ -55,6 +58,58 @@ func emit(e event) {
 	b, _ := json.Marshal(e)
 	out.Write(b)
 	out.WriteByte('\n')
+}
+
+// runaway watchdog: an encoder or decoder that loops or allocates without bound on some input is a verdict about the
+// library.  The failing input is reported as a one-case sweep with one bad entry, then the process exits (the abandoned
+// goroutine cannot be stopped).
+func guardedCall(what string, w int, kind string, levels []uint8, stream []byte, f func()) {
+	done := make(chan struct{}, 1)
+	go func() { f(); done <- struct{}{} }()
+	t := time.NewTicker(25 * time.Millisecond)
+	defer t.Stop()
+	start := time.Now()
+	var ms runtime.MemStats
+	n := 0
+	for {
+		select {
+		case <-done:
+			return
+		case <-t.C:
+			n++
+			prob := ""
+			if time.Since(start) > 120*time.Second {
+				prob = "runaway: the call did not return within 120s"
+			} else if n%4 == 0 {
+				runtime.ReadMemStats(&ms)
+				if ms.HeapAlloc > 6<<30 {
+					prob = fmt.Sprintf("runaway: heap grew to %d MiB during the call", ms.HeapAlloc>>20)
+				}
+			}
+			if prob != "" {
+				if len(levels) > 200000 {
+					levels = levels[:200000]
+				}
+				if len(stream) > 200000 {
+					stream = stream[:200000]
+				}
+				emit(event{"ev": "RunsAll", "op": what, "w": w, "kind": kind, "count": 1, "nbad": 1,
+					"bad": []event{{"levels": ints(levels), "stream": bints(stream), "problem": prob}}})
+				out.Flush()
+				os.Exit(0)
+			}
+		}
+	}
+}
+
+func encode(w int, kind string, levels []uint8) (stream []byte, problem string) {
+	guardedCall("enc", w, kind, levels, nil, func() { stream, problem = encodeInner(w, kind, levels) })
+	return
+}
+
+func decode(w int, kind string, n int, stream []byte) (levels []uint8, restOK bool, problem string) {
+	guardedCall("dec", w, kind, nil, stream, func() { levels, restOK, problem = decodeInner(w, kind, n, stream) })
+	return
 }
 
 type noStats struct{}
@@ -102,7 +157,7 @@ var sentinel = []byte{0xA5, 0x5A, 0xC3, 0x3C, 0x01, 0x02, 0x03, 0x04}
 
 // encode runs the library's encoder on levels through DoWrite and returns the
 // level stream cut out of the page, or an error description.
-func encode(w int, kind string, levels []uint8) (stream []byte, problem string) {
+func encodeInner(w int, kind string, levels []uint8) (stream []byte, problem string) {
 	defer func() {
 		if r := recover(); r != nil {
 			problem = fmt.Sprintf("panic: %v %s", r, debug.Stack())
@@ -199,7 +254,7 @@ func pageFor(w int, kind string, n int, stream []byte) []byte {
 }
 
 // decode feeds a level stream to the library's decoder through DoRead.
-func decode(w int, kind string, n int, stream []byte) (levels []uint8, restOK bool, problem string) {
+func decodeInner(w int, kind string, n int, stream []byte) (levels []uint8, restOK bool, problem string) {
 	defer func() {
 		if r := recover(); r != nil {
 			problem = fmt.Sprintf("panic: %v", r)
@@ -247,8 +302,11 @@ func randSegs(l *lcg, levels []uint8) []pq.Seg {
 			pos += n
 		} else {
 			g := 1 + l.next(4)
-			if l.next(6) == 0 {
+			switch l.next(12) {
+			case 0, 1:
 				g = 60 + l.next(150)
+			case 2:
+				g = 200 + l.next(500) // >= 256 groups: the payload of a width-1 run exceeds 255 bytes
 			}
 			n := 8 * g
 			if n >= rem {
@@ -300,6 +358,22 @@ func run(o op) {
 			return
 		}
 		got, restOK, prob := decode(o.W, o.Kind, len(lv), s)
+		if o.Big {
+			// too long for TLC to decode: judged here against the (TLC-cross-checked) reference decoder, reported as a one-case sweep
+			if vals, _, c, err := pq.DecodeStream(s, o.W); err != nil || c != len(s) || len(vals) < len(lv) || !bytes.Equal(vals[:len(lv)], lv) {
+				emit(event{"ev": "HarnessError", "detail": fmt.Sprintf("foreign encoder / reference decoder disagree: %v", err)})
+				return
+			}
+			if prob == "" && (!bytes.Equal(got, lv) || !restOK) {
+				prob = fmt.Sprintf("decoded %d levels (want %d), equal=%v, value section intact=%v", len(got), len(lv), bytes.Equal(got, lv), restOK)
+			}
+			bad := []event{}
+			if prob != "" {
+				bad = append(bad, event{"levels": o.Levels, "stream": bints(s), "problem": prob, "segs": o.Segs})
+			}
+			emit(event{"ev": "RunsAll", "op": "dec", "w": o.W, "kind": o.Kind, "count": 1, "bad": bad, "nbad": len(bad)})
+			return
+		}
 		emit(event{"ev": "Dec", "w": o.W, "kind": o.Kind, "levels": o.Levels, "stream": bints(s), "out": ints(got), "restok": restOK, "problem": prob,
 			"nsegs": len(o.Segs)})
 	case "encall":
